@@ -409,7 +409,13 @@ pub fn run(a: &Args) {
                 let (mut req, _cj) = build(op, &c["calls"], jobid, &uri, Pay::Empty, &mut cx, &mut rr, false);
                 for e in c["extras"].as_array().unwrap() {
                     let tag = if e["kind"].as_u64().unwrap() == 1 { DelimiterTag::OperationAttributes } else { DelimiterTag::JobAttributes };
-                    let name = unhexs(e["name"].as_str().unwrap());
+                    let mut name = unhexs(e["name"].as_str().unwrap());
+                    // the model's plain names stand for any name: in a third of the instances one that sorts before or
+                    // between the header attributes under some plausible ordering (control characters, space, upper case)
+                    if !["job-id", "job-uri", "printer-uri"].contains(&name.as_str()) && crate::mix(ci * 131 + _inst as usize) % 3 == 0 {
+                        const ODD: [&str; 10] = ["\u{0}", "\u{0}0a", "\u{0}2z", "\u{1}", " ", "!", "A", "attributes", "attributes-charset2", "~"];
+                        name = format!("{}{}", ODD[crate::mix(ci + 7 * _inst as usize) % ODD.len()], if e["kind"].as_u64().unwrap() == 1 { "" } else { "j" });
+                    }
                     let v = match name.as_str() {
                         "job-id" => IppValue::Integer(5),
                         "job-uri" => IppValue::Uri("ipp://host/jobs/5".into()),
